@@ -64,6 +64,8 @@ def plan(tier, seed):
             shards.append(("pipe_nostart", tier, gi, 3, True))
         if gi % 8 in (2, 5):
             shards.append(("pipe_mixedstart", tier, gi, 3, gi % 8 == 2))
+        if gi % 8 in (4, 7):
+            shards.append(("pipe_tie", tier, gi, 3, gi % 8 == 4))
         if gi % 8 in (0, 5):
             shards.append(("pipe_wrap360", tier, gi, 2, True))
         if gi % 4 == 3:
@@ -172,7 +174,7 @@ def _makemap_repeated(opts, k):
 
 
 def run_case(sh, mods, pars, ng, omfloat, case, passes=3, with_translation=True, cubic=False, repeat=0, unlisted=0, cellscale=1.0, wrap360=False,
-             legacy=False, frame_threads=0, subgrain=False):
+             legacy=False, frame_threads=0, subgrain=False, tie=False):
     tr, gm, P, cf_mod, makemap_mod = mods
     wd = os.path.join(WORK, "c09_%d" % os.getpid())
     shutil.rmtree(wd, ignore_errors=True)
@@ -202,6 +204,14 @@ def run_case(sh, mods, pars, ng, omfloat, case, passes=3, with_translation=True,
             truth = [(u, t * (1.0 if k < known else 0.3)) for k, (u, t) in enumerate(truth)]
             peaks = simulate(tr, pars, truth)
             start = [(u, t if k < known else np.zeros(3)) for k, (u, t) in enumerate(perturbed(truth))]
+        if tie:
+            # every grain keeps exactly as many peaks as the poorest one, and the grains are saved "sorted by number of peaks" (the default of
+            # makemap): a tie all the way - every grain is still saved, and the peaks of every grain get their hkl
+            nmin = min(int((peaks[:, 3] == k).sum()) for k in range(ng))
+            keep = np.zeros(len(peaks), bool)
+            for k in range(ng):
+                keep[np.nonzero(peaks[:, 3] == k)[0][:nmin]] = True
+            peaks = peaks[keep]
         if frame_threads:
             # every spot listed twice, the table in omega order: consecutive rows with exactly the same omega, as 2-D peak tables have;
             # the compiled loops run with `frame_threads` threads
@@ -219,7 +229,7 @@ def run_case(sh, mods, pars, ng, omfloat, case, passes=3, with_translation=True,
                 opts = argparse.Namespace(parfile=os.path.join(wd, "g.par"), ubifile=ubifile, newubifile=newubi, fltfile=os.path.join(wd, "p.flt"),
                                           newfltfile=None, symmetry="cubic" if cubic else "triclinic", latticesymmetry="cubic" if cubic else "triclinic", tol=0.05,
                                           omega_float=omfloat,
-                                          omega_slop=0.25, tthrange=None, sort_npks=False)
+                                          omega_slop=0.25, tthrange=None, sort_npks=bool(tie))
                 with contextlib.redirect_stdout(io.StringIO()):
                     if repeat:
                         _makemap_repeated(opts, repeat)
@@ -235,6 +245,8 @@ def run_case(sh, mods, pars, ng, omfloat, case, passes=3, with_translation=True,
                     start_correct = float((first_flt.labels.astype(int) == peaks[:, 3].astype(int)).mean())
                     # already the first pass must move every grain towards ITS OWN position (a loose bound, 20x the measured error)
                     g1 = gm.read_grain_file(newubi)
+                    if tie and len(g1) == ng:
+                        g1 = [min(g1, key=lambda g_: float(np.abs(g_.ubi - truth[k][0]).max())) for k in range(ng)]
                     for k in range(min(ng, len(g1))):
                         e1 = float(np.abs(g1[k].translation - truth[k][1]).max())
                         sh.counters["max_translation_err_after_first_pass_nm"] = max(sh.counters.get("max_translation_err_after_first_pass_nm", 0), int(e1 * 1e3))
@@ -253,6 +265,9 @@ def run_case(sh, mods, pars, ng, omfloat, case, passes=3, with_translation=True,
         ok = True
         if len(final) != ng:
             sh.violation("pipeline:number-of-grains", case, {"saved": len(final), "expected": ng}); ok = False
+        elif tie:
+            # saved in the order of the sort: put the saved grains back in the order of the grain file they started from
+            final = [min(final, key=lambda g_: float(np.abs(g_.ubi - truth[k][0]).max())) for k in range(ng)]
         worst_u, worst_t = 0.0, 0.0
         if cubic and ok:
             # the cell is constrained to cubic and the orientation reduced to the canonical setting of the cubic group: the saved matrix is
@@ -280,6 +295,11 @@ def run_case(sh, mods, pars, ng, omfloat, case, passes=3, with_translation=True,
                 sh.violation("refinement:translation-not-recovered", dict(case, grain=k), {"error_um": float(dt), "translation": final[k].translation, "truth": t_t}); ok = False; break
         if ok:
             lab = flt.labels.astype(int)
+            if tie and passes > 1:
+                # the labels count the grains in the order of the file the last pass STARTED from (sorted by the pass before)
+                prev = gm.read_grain_file(os.path.join(wd, "pass%d.ubi" % (passes - 2)))
+                perm = np.array([int(np.argmin([np.abs(g_.ubi - truth[k][0]).max() for k in range(ng)])) for g_ in prev] + [-1])
+                lab = perm[lab]
             if len(lab) != len(peaks) or not np.array_equal(lab, peaks[:, 3].astype(int)):
                 nbad = int((lab != peaks[:, 3].astype(int)).sum()) if len(lab) == len(peaks) else -1
                 sh.violation("assignment:peak-not-labelled-with-its-grain", case, {"n_wrong": nbad, "n_peaks": len(peaks)}); ok = False
@@ -338,11 +358,11 @@ def run_shard(desc):
             "cubic_constraint": kind == "pipe_cubic", "refinepositions_calls_on_one_object": int(kind[11:]) if kind.startswith("pipe_repeat") else 0,
             "grains_not_in_the_grain_file": 1 if kind == "pipe_missing" else 0, "cell_scale": 30.0 if kind == "pipe_bigcell" else 1.0,
             "omega_written_0_to_360": kind == "pipe_wrap360", "legacy_column_names": kind == "pipe_legacy",
-            "frame_pairs_threads": int(kind[11:]) if kind.startswith("pipe_frames") else 0, "second_grain_is_a_subgrain_of_the_first": kind == "pipe_subgrain",
+            "frame_pairs_threads": int(kind[11:]) if kind.startswith("pipe_frames") else 0, "second_grain_is_a_subgrain_of_the_first": kind == "pipe_subgrain", "grains_tie_on_number_of_peaks": kind == "pipe_tie",
             "pars": {k: v for k, v in pars.items() if not k.startswith("cell")}}
     info = run_case(sh, _mods(), pars, ng, omfloat, case, with_translation=case["start_has_translations"], cubic=(kind == "pipe_cubic"),
                     repeat=case["refinepositions_calls_on_one_object"], unlisted=case["grains_not_in_the_grain_file"], cellscale=case["cell_scale"], wrap360=case["omega_written_0_to_360"],
-                    legacy=case["legacy_column_names"], frame_threads=case["frame_pairs_threads"], subgrain=case["second_grain_is_a_subgrain_of_the_first"])
+                    legacy=case["legacy_column_names"], frame_threads=case["frame_pairs_threads"], subgrain=case["second_grain_is_a_subgrain_of_the_first"], tie=case["grains_tie_on_number_of_peaks"])
     sh.sample(dict(case, **{k: v for k, v in (info or {}).items()}), limit=1)
     return sh
 
@@ -413,5 +433,5 @@ def replay(case):
              cubic=case.get("cubic_constraint", False), repeat=case.get("refinepositions_calls_on_one_object", 0),
              unlisted=case.get("grains_not_in_the_grain_file", 0), cellscale=case.get("cell_scale", 1.0), wrap360=case.get("omega_written_0_to_360", False),
              legacy=case.get("legacy_column_names", False), frame_threads=case.get("frame_pairs_threads", 0),
-             subgrain=case.get("second_grain_is_a_subgrain_of_the_first", False))
+             subgrain=case.get("second_grain_is_a_subgrain_of_the_first", False), tie=case.get("grains_tie_on_number_of_peaks", False))
     return (not sh.violations), {"violations": sh.violations[:3]}
